@@ -178,6 +178,38 @@ def report(ctx, an, fname, rule):
     return n
 
 
+def decoder_stores(ctx, rule):
+    """every store of the decoder is inside the caller's buffer (used by C14 as R2, and by C15, whose printer decodes what a file holds)"""
+    prog = ctx.prog
+    # decoder (API contract: str_len >= 1)
+    d, dnames = decoder_family(prog)
+    sp, lp = d.params[0]['n'], d.params[1]['n']
+    fmt_arr = [ev for ev in d.events('DECL') if prog.type_info(ev.d.get('ty', '')).get('kind') == 'array']
+    bufs = {sp: Lin.term(lp)}
+    for ev in fmt_arr:
+        ti = prog.type_info(ev.d['ty'])
+        bufs[ev.d['var']] = Lin(ti['n'])
+    an = EncAnalysis(prog, d, bufs, init=[Lin(1) - Lin.term(lp)], summaries={'my_strlcpy': strl_summary, 'my_strlcat': strl_summary}).run()
+    import os, sys
+    if os.environ.get('QBDBG'):
+        for (b, i), sts in sorted(an.states.items()):
+            ev = d.blocks[b].events[i]
+            if ev.ln in (int(x) for x in os.environ['QBDBG'].split(',')):
+                for st in sts:
+                    print('DBGSTATE', ev.ln, ev.kind, [f for f in st.facts if 'fmt_pos' in f.t or 'mod_pos' in f.t], file=sys.stderr)
+    n = report(ctx, an, 'deserialize', rule)
+    if n < 20:
+        raise AnalysisBroken('qb_vsnprintf_deserialize: only %d store obligations' % n)
+    ctx.note('decoder analysed under the API contract str_len >= 1 (every in-tree caller passes a constant >= 1)')
+    for (g, ev) in [x for nm in sorted(dnames) for x in prog.callers_of(nm)]:
+        if g.name in dnames:
+            continue
+        c = cval(unwrap(ev.args[1]))
+        ctx.check(rule, 'deserialize:caller-capacity:%s' % g.name, c is not None and c >= 1, ev, 'the caller passes a constant capacity %s' % c,
+                  'the caller passes a capacity the rule cannot see to be >= 1')
+    return d
+
+
 def run(ctx):
     prog = ctx.prog
     # helpers: return <= maxlen - 1 under maxlen >= 1
@@ -211,32 +243,7 @@ def run(ctx):
     okr = bool(an1.returns) and all(v is not None and st.entails_le(v, Lin.term(mp)) for (_ev, st, v) in an1.returns)
     ctx.check('R1', 'serialize:returns<=max_len', okr, e, 'the encoder reports a length <= max_len (for max_len >= 1)',
               'the encoder can report more bytes than max_len: the blackbox commits a chunk longer than it reserved')
-    # decoder (API contract: str_len >= 1)
-    d, dnames = decoder_family(prog)
-    sp, lp = d.params[0]['n'], d.params[1]['n']
-    fmt_arr = [ev for ev in d.events('DECL') if prog.type_info(ev.d.get('ty', '')).get('kind') == 'array']
-    bufs = {sp: Lin.term(lp)}
-    for ev in fmt_arr:
-        ti = prog.type_info(ev.d['ty'])
-        bufs[ev.d['var']] = Lin(ti['n'])
-    an = EncAnalysis(prog, d, bufs, init=[Lin(1) - Lin.term(lp)], summaries={'my_strlcpy': strl_summary, 'my_strlcat': strl_summary}).run()
-    import os, sys
-    if os.environ.get('QBDBG'):
-        for (b, i), sts in sorted(an.states.items()):
-            ev = d.blocks[b].events[i]
-            if ev.ln in (int(x) for x in os.environ['QBDBG'].split(',')):
-                for st in sts:
-                    print('DBGSTATE', ev.ln, ev.kind, [f for f in st.facts if 'fmt_pos' in f.t or 'mod_pos' in f.t], file=sys.stderr)
-    n = report(ctx, an, 'deserialize', 'R2')
-    if n < 20:
-        raise AnalysisBroken('qb_vsnprintf_deserialize: only %d store obligations' % n)
-    ctx.note('decoder analysed under the API contract str_len >= 1 (every in-tree caller passes a constant >= 1)')
-    for (g, ev) in [x for nm in sorted(dnames) for x in prog.callers_of(nm)]:
-        if g.name in dnames:
-            continue
-        c = cval(unwrap(ev.args[1]))
-        ctx.check('R2', 'deserialize:caller-capacity:%s' % g.name, c is not None and c >= 1, ev, 'the caller passes a constant capacity %s' % c,
-                  'the caller passes a capacity the rule cannot see to be >= 1')
+    d = decoder_stores(ctx, 'R2')
     r3(ctx, e, d)
     r4(ctx, e, d)
     r5(ctx)
